@@ -481,7 +481,12 @@ func vsRenderBytes(b []byte) string {
 		return fmt.Sprintf("h'%x'", b)
 	}
 	h := fnv.New64a()
-	h.Write(b)
+	if len(b) <= 1<<16 {
+		h.Write(b)
+	} else { // do not touch every page of a huge (zero-filled) result
+		h.Write(b[:1<<12])
+		h.Write(b[len(b)-1<<12:])
+	}
 	return fmt.Sprintf("h'%x..'(len=%d,fnv=%x)", b[:16], len(b), h.Sum64())
 }
 
@@ -650,7 +655,7 @@ func vsDecode(t *vsT, b []byte) vsDecoded {
 	d.panicMsg, d.timeout = vGuard(20*time.Second, func() {
 		d.alloc = vsAllocDuring(func() { d.err = Unmarshal(in, dst.Interface()) })
 	})
-	if d.panicMsg == "" && !d.timeout && d.err == nil {
+	if d.panicMsg == "" && !d.timeout && d.err == nil && d.alloc <= vsAllocBudget(len(b)) {
 		// consumed length: same decoder on a reader that can be asked what is left
 		dst2 := reflect.New(t.goType())
 		vsPrep(t, dst2.Elem(), true)
@@ -793,6 +798,9 @@ func vsRandStrings(res *vResult, types []*vsT, perType int) {
 		if t.hasKind("map") {
 			continue // Marshal of a map is not deterministic (see C11); the rule needs Marshal
 		}
+		if t.hasKind("bytes") || t.hasKind("str") || strings.Contains(t.String(), "slice(u8)") || strings.Contains(t.String(), "slice(i8)") {
+			continue // the code allocates whatever length a random prefix declares (C12/alloc): gigabytes
+		}
 		for i := 0; i < perType; i++ {
 			n := rng.Intn(14)
 			b := make([]byte, n)
@@ -828,7 +836,10 @@ func vsRandStrings(res *vResult, types []*vsT, perType int) {
 				continue
 			}
 			if !bytes.Equal(re, b[:d.consumed]) {
-				class := "noncanonical-accepted"
+				class := "noncanonical-accepted/" + t.K
+				if t.hasKind("bigint") {
+					class = "noncanonical-accepted/bigint"
+				}
 				if d.consumed == len(b) && len(re) > len(b) && bytes.HasPrefix(re, b) && len(bytes.Trim(re[len(b):], "\x00")) == 0 {
 					class = "zero-filled"
 				}
